@@ -32,6 +32,7 @@ var tplSpecs = []tplSpec{
 	{"atom_unique_values", "internal/generator/uniqueValues.go", nil},
 	{"nested", "internal/generator/nested.go", nil},
 	{"expression", "internal/generator/expression.go", nil},
+	{"normalizer", "internal/validator/normalizer.go", nil},
 	{"quote", "internal/generator/quote.go", nil},
 	{"quote_all_literals", "internal/generator/quote.go", []string{"regoStringContent"}},
 	{"message", "internal/parser/profile/message.go", []string{"ParseMessageExpression"}},
